@@ -432,6 +432,36 @@ Example tail_field_examples :
   end.
 Proof. vm_compute. repeat split; reflexivity. Qed.
 
+(* SVCB / HTTPS: mandatory + alpn with a comma and a backslash inside an id (two levels of escaping) + port +
+   hints + ech + an unregistered key with binary data + a valueless key; AliasMode; the record is read back; a
+   duplicate key and parameters in AliasMode are rejected *)
+Example svcb_examples :
+  match schema_of 64, schema_of 65 with
+  | Some svcb, Some https =>
+      let ps := [(0, PKeys [1; 3]); (1, PStrs [[104; 50]; [97; 44; 92; 34]]); (3, PPort 8443);
+                 (4, PAddrs false [[192; 0; 2; 1]; [10; 0; 0; 255]]); (5, PEch [1; 2; 3]);
+                 (6, PAddrs true [[32; 1; 13; 184; 0; 0; 0; 0; 0; 0; 0; 0; 0; 0; 0; 1]]);
+                 (8, PNone); (65000, PGen [0; 255; 34; 32])] in
+      let r1 := [VSvcb 16 [[115; 118; 99]; [101; 120]; []] ps] in
+      let r0 := [VSvcb 0 [[]] []] in
+      svcb = https
+      /\ (do text <- record_to_text ex_sty svcb r1; record_from_text ex_ctx svcb (schema_chk 64) text)
+         = Ok [VSvcb 16 [[115; 118; 99]] ps]
+      /\ (do text <- record_to_text ex_sty svcb r0; record_from_text ex_ctx svcb (schema_chk 64) (text ++ [10])) = Ok r0
+      (* 1 . port=1 port=2 *)
+      /\ record_from_text ex_ctx svcb (schema_chk 64) [49;32;46;32;112;111;114;116;61;49;32;112;111;114;116;61;50] = Lib eSyntax
+      (* 0 . port=1 *)
+      /\ record_from_text ex_ctx svcb (schema_chk 64) [48;32;46;32;112;111;114;116;61;49] = Lib eSyntax
+  | _, _ => False
+  end.
+Proof. vm_compute. repeat split; reflexivity. Qed.
+
+Example svcb_text_example :
+  svcb_to_text ex_sty 1 [[]] [(1, PStrs [[104; 50]; [97; 44; 98]]); (2, PNone); (3, PPort 53)]
+  = Ok [49;32;46;32;97;108;112;110;61;34;104;50;44;97;92;92;44;98;34;32;110;111;45;100;101;102;97;117;108;116;45;97;108;112;110;32;
+        112;111;114;116;61;34;53;51;34].      (* 1 . alpn="h2,a\\,b" no-default-alpn port="53" *)
+Proof. vm_compute. reflexivity. Qed.
+
 (* WKS: the bitmap is rebuilt from the listed ports (here ports 0, 7, 8 and 23 -> 0x81 0x80 0x01); no port at all *)
 Example wks_examples :
   match schema_of 11 with
